@@ -76,3 +76,19 @@ def single_defs(fn):
 
 def fmt(f):
     return " + ".join(f"{c}*{t}" if t != "1" else str(c) for t, c in sorted(f.items())) or "0"
+
+
+def relation(cond, pol=True, defs=None):
+    """(form, strict) such that `form > 0` (strict) or `form >= 0` holds when the comparison `cond` has truth value pol;
+    None for anything that is not an ordering comparison."""
+    n = cir.strip(cond)
+    if n is None or n.get("k") != "BinaryOperator" or n.get("op") not in ("<", "<=", ">", ">="):
+        return None
+    a = linform(cir.kids(n)[0], defs)
+    b = linform(cir.kids(n)[1], defs)
+    op = n.get("op")
+    if not pol:
+        op = {"<": ">=", "<=": ">", ">": "<=", ">=": "<"}[op]
+    if op in (">", ">="):
+        return _add(a, b, -1), op == ">"
+    return _add(b, a, -1), op == "<"
